@@ -349,6 +349,11 @@ func (c *Ctx) Violations() []Viol {
 	return append([]Viol(nil), c.viols...)
 }
 
+// Totals returns evaluations, non-trivial cases and the expected cardinality.
+func (c *Ctx) Totals() (evals, nontriv, expected int64) {
+	return atomic.LoadInt64(&c.evals), atomic.LoadInt64(&c.nontriv), atomic.LoadInt64(&c.expected)
+}
+
 // Exhaustive tells whether no cap was hit so far.
 func (c *Ctx) Exhaustive() bool {
 	c.mu.Lock()
